@@ -166,8 +166,10 @@ def oracle_lr(run):
     return None
 
 
-LR_TRUST = ["Model/LR.lean is a hand-written model (stage A: the exact program) of lr_guarded.hpp: lock_shared and its try "
-            "forms, the handle deleter, modify with both catch blocks",
+LR_TRUST = ["Model/LR.lean is a hand-written model of lr_guarded.hpp (lock_shared and its try forms, the handle deleter, modify "
+            "with both catch blocks): readers exactly as coded; the writer as the weakest discipline the proofs need (stage B: "
+            "mutex held; first application on the side the flag points away from, then the flip; any loads / counting-flag "
+            "stores / yields while waiting; second application only after BOTH counters were observed at zero since the flip)",
             "harness/vpayload_lr.hpp: the traced multi-word payload (list of operation ids with a trailing check word) whose "
             "begin/end-of-write, copy and read events carry the values the model compares with its own",
             "Driver/LR.lean only parses seq_cst atomic operations: a weaker memory order on any lr_guarded atomic is rejected"]
@@ -179,14 +181,18 @@ LR_ASSUME = ["seq_cst atomics and std::mutex are interleaved cells (the C++-memo
 LR_TIE = (" Tied to the source on every run: the unmodified header, instantiated with a traced multi-word payload, runs under "
           "a deterministic scheduler (readers parked inside handles so that both wait loops iterate, both initial sides, functors "
           "throwing before / in the middle of / after either application); every primitive-level trace must be accepted by "
-          "the model's step function — including the observed payload values — with all 54 model edges covered.")
+          "the model's step function — including the observed payload values — with all 56 model edges of today's code covered.")
 
 
 def register(PROPS, COMPONENTS):
-    COMPONENTS["lr"] = dict(client="lr", driver="lr", directed_runs=12, quick_runs=1600, thorough_runs=60000, oracle=oracle_lr,
-                            cov_headers=["gmlc/libguarded/lr_guarded.hpp"])
+    base = dict(client="lr", directed_runs=12, quick_runs=1600, thorough_runs=60000, oracle=oracle_lr,
+                cov_headers=["gmlc/libguarded/lr_guarded.hpp"])
+    # same client, same model; "lr" checks the safety discipline only, "lr_strict" additionally the writer-progress
+    # discipline (a wait iteration only on the counter new readers are not directed to), which C14 needs
+    COMPONENTS["lr"] = dict(base, driver="lr")
+    COMPONENTS["lr_strict"] = dict(base, driver="lr_strict")
     PROPS["C03"] = dict(
-        lean_files=["ConcVerif/Props/C03.lean"], components=["lr"], stage="A",
+        lean_files=["ConcVerif/Props/C03.lean"], components=["lr"], stage="B",
         level_text="Lean 4 theorems (kernel-checked; unbounded threads, calls and interleavings, throwing functors included) over "
                    "an executable model of lr_guarded.hpp at the level of its two flags, two reader counters, write mutex and "
                    "whole-object accesses of the two copies, with payload values: while a handle points to a copy no step changes "
@@ -204,11 +210,13 @@ def register(PROPS, COMPONENTS):
 
 PARTS = {
     "C14": dict(
-        lean_files=["ConcVerif/Props/C14_lr.lean"], components=["lr"],
+        lean_files=["ConcVerif/Props/C14_lr.lean"], components=["lr_strict"],
         trusted_base=LR_TRUST, assumptions=LR_ASSUME,
-        partial=["lr_guarded: 'a writer completes once the handles are released' is proved as safety facts (counter exactness, exit "
-                 "edge enabled when the waited counter is empty, the waited counter is closed to new arrivals, holder always enabled, "
-                 "lock enabled when free); the fair-scheduler termination step is not mechanised"]),
+        partial=["lr_guarded: 'a writer completes once the handles are released' is proved as safety facts (counter exactness; a "
+                 "counter with nobody registered is observed at zero; second application enabled once both were; constructive "
+                 "3-step completion when nobody is registered; in strict mode wait iterations only on the counter closed to new "
+                 "arrivals, which gains members only from readers that had loaded the counting flag before; holder always "
+                 "enabled; lock enabled when free); the fair-scheduler termination step is not mechanised"]),
     "C20": dict(
         lean_files=["ConcVerif/Props/C20_lr.lean"], components=["lr"],
         trusted_base=LR_TRUST, assumptions=LR_ASSUME,
